@@ -138,7 +138,7 @@ func decodeWith(d *kmip.Decoder, t reflect.Type) decOut {
 			o.value = render.Struct(tgt.Interface())
 		}
 		return o
-	case <-time.After(20 * time.Second):
+	case <-time.After(5 * time.Second):
 		return decOut{class: "timeout"}
 	}
 }
